@@ -16,6 +16,7 @@ Domain descriptions ("desc", JSON lists) shared by all sub-checks:
                                      placed strictly between neighbouring distinct k-lengths)
 """
 import itertools
+import os
 import pickle
 
 import numpy as np
@@ -475,6 +476,16 @@ def rg_recipes(draw, tier):
         dist = draw(DIST)
     else:
         dist = [draw(DIST) for _ in range(nd)]
+        how = draw(st.sampled_from(["plain", "plain", "near_equal", "tiny", "huge"]))
+        if how == "near_equal":
+            # distances that differ only in the 5th-6th digit: still clearly distinct grids (k-lengths separated by
+            # far more than the 1e-12 merging tolerance), but equal for any sloppy comparison
+            base = dist[0]
+            dist = [base * (1.0 + draw(st.integers(0, 3)) * 2.0 ** -draw(st.integers(16, 20))) for _ in range(nd)]
+        elif how == "tiny":
+            dist = [x * 2.0 ** -30 for x in dist]
+        elif how == "huge":
+            dist = [x * 2.0 ** 20 for x in dist]
     return {"shape": shape, "dist": dist, "harmonic": draw(st.sampled_from([True, True, False])),
             "via": draw(st.sampled_from(["rg", "rgc"])), "proto": draw(st.integers(2, 5))}
 
@@ -1105,6 +1116,103 @@ def check_pair(rec):
     return dict(nontrivial=rec["i"] != rec["j"], classes=["same" if same else "different", di[0] + "~" + dj[0]])
 
 
+# ---------------------------------------------------------------- pickling across interpreter processes
+def _xproc_objects(rec):
+    """domains, DomainTuple, MultiDomain, Field and MultiField of a recipe (same builder in both processes)"""
+    descs, keys = rec["doms"], rec["keys"]
+    doms = [build(d, 0)[0] for d in descs]
+    ta = ift.DomainTuple.make(tuple(doms))
+    parts = {k: [] for k in keys}
+    for j in range(len(descs)):
+        parts[keys[rec["assign"][j] % len(keys)]].append(j)
+    md = ift.MultiDomain.make({k: tuple(doms[j] for j in parts[k]) for k in keys})
+    fld = ift.Field.from_raw(ta, np.arange(ta.size, dtype=np.float64).reshape(ta.shape))
+    mf = ift.MultiField.from_dict(
+        {k: ift.Field.from_raw(md[k], np.arange(md[k].size, dtype=np.float64).reshape(md[k].shape)) for k in keys}, md)
+    return doms, ta, md, fld, mf
+
+
+def _xproc_child(mode, recfile, pklfile):
+    """entry point of the helper processes (python -m props.c08_domains <mode> <recipe.json> <pickle file>)"""
+    import json
+    rec = json.load(open(recfile))
+    if mode == "dump":
+        doms, ta, md, fld, mf = _xproc_objects(rec)
+        if rec["hash_before_dump"]:
+            # what real programs do: domains are dict keys / cache keys before they are sent or saved
+            _ = {d: 1 for d in doms}, hash(ta), hash(md)
+        with open(pklfile, "wb") as f:
+            pickle.dump((doms, ta, md, fld, mf), f, protocol=rec["proto"])
+        return []
+    fails = []
+    if rec["fresh_first"]:
+        doms, ta, md, fld, mf = _xproc_objects(rec)
+    with open(pklfile, "rb") as f:
+        ldoms, lta, lmd, lfld, lmf = pickle.load(f)
+    if not rec["fresh_first"]:
+        doms, ta, md, fld, mf = _xproc_objects(rec)
+
+    def need(cond, kind, detail=""):
+        if not cond:
+            fails.append([kind, detail])
+    for a, b in zip(doms, ldoms):
+        need(a == b and b == a and not (a != b), "xproc:domain_not_equal_after_pickle", repr(a))
+        need(hash(a) == hash(b), "xproc:domain_hash_differs_after_pickle", repr(a))
+        need({a: 1}.get(b) == 1 and {b: 1}.get(a) == 1, "xproc:domain_dict_lookup_fails_after_pickle", repr(a))
+    need(ift.DomainTuple.make(tuple(ldoms)) is ta, "xproc:domain_tuple_from_unpickled_domains_not_identical", repr(ta))
+    need(ift.DomainTuple.make(tuple(ldoms)) is ift.DomainTuple.make(tuple(doms)),
+         "xproc:domain_tuple_from_unpickled_domains_not_identical", repr(ta))
+    need(lta is ift.DomainTuple.make(tuple(doms)), "xproc:unpickled_domain_tuple_not_identical", repr(ta))
+    need(lmd is ift.MultiDomain.make({k: md[k] for k in md.keys()}), "xproc:unpickled_multi_domain_not_identical", repr(md))
+    need(ift.MultiDomain.make({k: tuple(lmd[k]) for k in lmd.keys()}) is md,
+         "xproc:multi_domain_from_unpickled_entries_not_identical", repr(md))
+    need(lfld.domain is ift.DomainTuple.make(tuple(doms)), "xproc:field_domain_not_identical_after_pickle", repr(ta))
+    need(lmf.domain is md, "xproc:multifield_domain_not_identical_after_pickle", repr(md))
+    need(np.array_equal(lfld.asnumpy(), fld.asnumpy()), "xproc:field_values_after_pickle")
+    try:
+        need(float((lfld - fld).norm()) == 0.0, "xproc:field_arithmetic_after_pickle")
+    except Exception as e:  # noqa: BLE001   (domain mismatch between unpickled and fresh field)
+        fails.append(["xproc:field_arithmetic_after_pickle", repr(e)])
+    return fails
+
+
+def check_cross_process(rec):
+    import json
+    import subprocess
+    import sys
+    import tempfile
+    with tempfile.TemporaryDirectory(prefix="c08x_") as tmp:
+        recfile, pklfile = os.path.join(tmp, "rec.json"), os.path.join(tmp, "obj.pkl")
+        json.dump(rec, open(recfile, "w"))
+        for mode, hs in (("dump", rec["hashseed"][0]), ("load", rec["hashseed"][1])):
+            env = dict(os.environ, PYTHONHASHSEED=str(hs))
+            r = subprocess.run([sys.executable, "-m", "props.c08_domains", mode, recfile, pklfile], env=env,
+                               stdout=subprocess.PIPE, stderr=subprocess.PIPE, timeout=900)
+            if r.returncode != 0:
+                err = r.stderr.decode(errors="replace")
+                if "/nifty/" in err.split("Error")[0][-3000:] and mode == "load":
+                    raise Violation("xproc:unpickling_failed", err[-1500:])
+                raise RuntimeError(f"helper process ({mode}) failed: {err[-2000:]}")
+            out = r.stdout.decode().strip().splitlines()
+        fails = json.loads(out[-1])
+    if fails:
+        raise Violation(fails[0][0], f"{fails[0][1]} (+{len(fails) - 1} more); hash seeds {rec['hashseed']}")
+    kinds = sorted({d[0] for d in rec["doms"]})
+    return dict(nontrivial=rec["hashseed"][0] != rec["hashseed"][1],
+                classes=kinds + [f"hashed_before_dump={rec['hash_before_dump']}", f"fresh_first={rec['fresh_first']}",
+                                 "same_hashseed" if rec["hashseed"][0] == rec["hashseed"][1] else "different_hashseed"])
+
+
+@st.composite
+def xproc_recipes(draw, tier):
+    rec = draw(identity_recipes(tier))
+    h1 = draw(st.integers(0, 1000))
+    h2 = draw(st.one_of(st.just(h1), st.integers(0, 1000), st.integers(0, 1000)))
+    return {"doms": rec["doms"], "keys": rec["keys"], "assign": rec["assign"], "proto": rec["proto"],
+            "hashseed": [h1, h2], "hash_before_dump": draw(st.sampled_from([True, True, False])),
+            "fresh_first": draw(st.booleans())}
+
+
 SUBS = [
     Sub(name="rg_sweep", check=check_rg, cases=rg_cases, exhaustive=True, shards=3,
         rule="EXHAUSTIVE over all shapes in {1..9}^d, d=1..3 (thorough {1..11}^d) x three fixed distance patterns "
@@ -1144,4 +1252,18 @@ SUBS = [
     Sub(name="identity_pairs", check=check_pair, cases=pair_cases, exhaustive=True, shards=1,
         rule=f"EXHAUSTIVE over all ordered pairs of a {len(PALETTE)}-entry palette of near-miss descriptions with hand-assigned "
              "equality groups: == / hash / DomainTuple / MultiDomain identity iff same group; non-trivial = i != j"),
+    Sub(name="pickle_across_processes", check=check_cross_process, strategy=xproc_recipes, quick=32, thorough=600,
+        shards=8, budget_quick=150,
+        rule="domains / DomainTuple / MultiDomain / Field / MultiField of an identity recipe are pickled by one fresh "
+             "interpreter and unpickled by another one with a different PYTHONHASHSEED (as when samples are saved to "
+             "disk or sent to another MPI task), hashed before dumping or not, equal objects built before or after "
+             "loading; oracle: unpickled domains are ==, hash-equal and dict-compatible with freshly built ones and the "
+             "unpickled tuple / multi-domain / field domains ARE the canonical objects; non-trivial = the two "
+             "interpreters use different hash seeds"),
 ]
+
+if __name__ == "__main__":
+    import json as _json
+    import sys as _sys
+    print(_json.dumps(_xproc_child(_sys.argv[1], _sys.argv[2], _sys.argv[3])))
+
